@@ -68,6 +68,37 @@ def enum_operator_table():
     return out
 
 
+def expression_nestings():
+    """every nesting of two short-circuit / conditional operators (each with its own sink temporary and its own labels), as a value, as an if
+    condition, as a case label, as a call argument: a && (b || c), (a ? b : c) && d, a ? (b && c) : d ..."""
+    L = [("member", ("ident", o), "b") for o in ("a", "b", "sub")] + [("binary", ">", ("member", ("ident", "a"), "i"), ("int", 0))]
+    def bin_(op):
+        return lambda x, y: ("binary", op, x, y)
+    mk = {"&&": bin_("&&"), "||": bin_("||")}
+    inner = []
+    for op in ("&&", "||"):
+        inner.append((op, mk[op](L[1], L[2])))
+    inner.append(("?:", ("ternary", L[1], L[2], L[3])))
+    exprs = []
+    for iname, ie in inner:
+        for op in ("&&", "||"):
+            exprs.append(("%s-right-%s" % (op, iname), mk[op](L[0], ie)))
+            exprs.append(("%s-left-%s" % (op, iname), mk[op](ie, L[0])))
+            exprs.append(("%s-both-%s" % (op, iname), mk[op](ie, mk[op](L[0], L[3]))))
+        exprs.append(("?:-cond-%s" % iname, ("ternary", ie, L[0], L[3])))
+        exprs.append(("?:-then-%s" % iname, ("ternary", L[0], ie, L[3])))
+        exprs.append(("?:-else-%s" % iname, ("ternary", L[0], L[3], ie)))
+    out = []
+    for name, e in exprs:
+        out.append((("binding_expr", e), "nest:value"))
+        out.append((("binding_block", [("if", e, ("block", [("expr", ("call", ("member", ("ident", "a"), "act"), [("int", 1)]))]), None)]), "nest:if"))
+        out.append((("binding_block", [("decl", "let", [("x", None, e)]), ("if", ("ident", "x"), ("block", [("return", None)]), None),
+                                       ("expr", ("call", ("member", ("ident", "a"), "act"), [("int", 2)]))]), "nest:decl"))
+        out.append((("binding_block", [("switch", ("member", ("ident", "a"), "b"), [(e, [("break", False)])], None)]), "nest:case-label"))
+        out.append((("binding_block", [("return", ("ternary", e, ("int", 1), ("int", 2)))]), "nest:return"))
+    return out
+
+
 def skeleton_statements(maxn):
     """all switch skeletons with <= maxn clauses x default position x small bodies; if/else and early-return shapes"""
     bodies = [[], [("expr", ("call", ("member", ("ident", "a"), "act"), [("int", 1)]))], [("break", False)],
